@@ -1,2 +1,4 @@
+pub mod c11;
+pub mod c12;
 pub mod c14;
 pub mod c19;
